@@ -36,6 +36,33 @@ fn hooks() -> Option<Arc<dyn SyncHooks>> {
     }
 }
 
+static REQUESTS_IN_POOL_JOBS: std::sync::Mutex<Vec<(std::thread::ThreadId, usize)>> =
+    std::sync::Mutex::new(Vec::new());
+
+/// Another frame's render is requested (and, if it is in progress elsewhere, waited for) by `run_with_image`:
+/// recorded when this happens inside a pool job, where a blocking wait can occupy the very worker the awaited
+/// render needs.
+pub(crate) fn handle_request(frame_idx: usize) {
+    if jxl_threadpool::verif::job_depth() > 0 {
+        REQUESTS_IN_POOL_JOBS
+            .lock()
+            .unwrap()
+            .push((std::thread::current().id(), frame_idx));
+    }
+}
+
+/// Frame indices whose render was requested from inside a pool job since the last call: by the calling thread only
+/// (a sequential pool runs every job on its caller), or by any thread of the process.
+pub fn take_requests_in_pool_jobs(calling_thread_only: bool) -> Vec<usize> {
+    let me = std::thread::current().id();
+    let mut all = REQUESTS_IN_POOL_JOBS.lock().unwrap();
+    let (taken, kept): (Vec<_>, Vec<_>) = all
+        .drain(..)
+        .partition(|(t, _)| !calling_thread_only || *t == me);
+    *all = kept;
+    taken.into_iter().map(|(_, f)| f).collect()
+}
+
 pub(crate) fn render_op(frame_idx: usize, enter: bool) {
     let h = HOOKS.read().unwrap().clone();
     if let Some(h) = h {
